@@ -22,13 +22,17 @@ Example negotiable_example : In 49199 all_suites /\ In 3 all_versions /\ negotia
 Proof. exact L_example. Qed.
 
 (* key length, IV length, cipher constructor, MAC length and digest (RecordLayer._getCipherSettings,
-   _getMacSettings), the PRF really applied by calc_key / the TLS 1.3 key-schedule hash, and the
-   key-exchange class chosen by client and server, are those denoted by the IANA name *)
+   _getMacSettings), the PRF really applied by calc_key for every label (key expansion, master secret,
+   extended master secret, Finished) / the TLS 1.3 key-schedule hash, the exporter, the deprecated
+   calc* helpers, the TLS 1.3 KeyUpdate (hash and length of the next traffic secret, of the new key and
+   IV, in all four role/direction wrappers), and the key-exchange class chosen by client and server,
+   are those denoted by the IANA name *)
 Theorem classification_matches_name : forall s v,
   In s all_suites -> In v all_versions -> negotiable s v = true ->
   exists m r, meaning_of s = Some m /\ row_of s = Some r /\
     cipher_settings_ok m r = true /\ mac_settings_ok m r = true /\ prf_ok m r v = true /\
-    chk_dispatch s = true.
+    labels_ok m r v = true /\ exporter_ok m r v = true /\ deprecated_ok m r v = true /\
+    keyupdate_ok m r v = true /\ chk_dispatch s = true.
 Proof. exact L_classification. Qed.
 
 (* a suite is negotiable only in a version that defines it: TLS 1.3 suites exactly in TLS 1.3,
